@@ -324,6 +324,11 @@ def engine_a_check(pid, tier, jobs, required_reach, assumptions, level_note, out
                           "wall_s": round(r["wall_s"], 2), "exhaustive": r["exhaustive"], "max_steps_seen": r["max_steps_seen"],
                           "asserts_symbolic": r["asserts_checked"], "asserts_concrete": r["asserts_concrete"]}
         for k, n in (r.get("inconclusive") or {}).items():
+            if k == "warmup-failed":
+                # nothing of this job was explored: the package initialisation of the tree under test cannot be executed
+                # (e.g. a package-level variable initialised from the clock or a random source) - never reported as success
+                out.engine_errors.append("%s: the package initialisation cannot be executed by the engine, nothing was explored: %s" % (h, ((r.get("inconclusive_examples") or {}).get(k) or "")[:300]))
+                continue
             out.inconclusive.append("%s: %s (x%d)" % (h, k, n))
         for lab in required_reach.get(h, []):
             if lab not in (r.get("reach") or {}):
@@ -671,7 +676,7 @@ def c16(tier):
             T("utils", "VerifC16_Column", {"N": 3}),
             T("utils", "VerifC08_OddLines", {"T": W(tier, 1, 2), "NS": 3, "NI": 3}), T("utils", "VerifC08_FreeLine", {"L": W(tier, 6, 8)}),
             T("transformer", "VerifC03_PrePass", {"N": W(tier, 6, 8)}),
-            T("transformer", "VerifC07_Merge", {"SCEN": 1, "N": 2, "NR": 1, "SEPS": 1}),
+            T("transformer", "VerifC07_Merge", {"SCEN": 1, "N": 2, "NR": 1, "SEPS": 1, "CRLF": 1}),
             T("transformer", "VerifC07_Merge", {"SCEN": 5, "N": 1, "NR": 1}),
             T("transformer", "VerifC07_Merge", {"SCEN": 0, "F": 2, "DECLS": 3, "RELS": 1, "CONDS": 1, "FAULTS": 0, "N": 2, "NR": 1}),
             LJ("VerifListener_Doc", tier, MODULES=1, EXTEND=1, NODES=1, DEPTH=0, CONDS=2),
@@ -697,8 +702,10 @@ def c14(tier):
             T("transformer", "VerifC14_ParamOrder", {"N": W(tier, 2, 3)}, sched="all", prune=True),
             T("transformer", "VerifC14_CondOrder", {"N": n}, sched="all", prune=True),
             T("transformer", "VerifC02_Names", {"N": 2}, sched="all", prune=True),
-            T("transformer", "VerifC14_JSONString", {"N": n})]
-    out = engine_a_check("C14", tier, jobs, {"VerifC14_CmpPair": ["less", "greater", "equal"], "VerifC14_CmpTriple": ["chain"], "VerifC14_JSONString": ["printed"],
+            T("transformer", "VerifC14_JSONString", {"N": n}),
+            # repeated calls on one model (every rewrite shape): same text
+            T("transformer", "VerifC02_Shapes", {"NODES": W(tier, 4, 5), "DEPTH": 2, "WIDTH": 3})]
+    out = engine_a_check("C14", tier, jobs, {"VerifC14_CmpPair": ["less", "greater", "equal"], "VerifC14_CmpTriple": ["chain"], "VerifC14_JSONString": ["printed"], "VerifC02_Shapes": ["accepted"],
                                              "VerifC14_Canonical": ["printed"], "VerifC14_Inert": ["compared"], "VerifC02_Names": ["printed"],
                                              "VerifC14_TypeOrder": ["printed"], "VerifC14_ManyRelations": ["printed"], "VerifC14_ParamOrder": ["printed"], "VerifC14_CondOrder": ["printed"]},
                          ["names/modules/files over small alphabets (the code only compares and copies bytes)",
@@ -815,6 +822,12 @@ FAMS = {
            "LP: as L with the relations named v, vi, vie (names that are prefixes of each other)"),
     "HP": ({"R": 2, "RELNAMES": 1, "L10": LEAVES_ALL, "L11": LEAVES_ALL}, "HP: as H with the relations named v, vi"),
     "W": ({"R": 2, "L10": M(0, 16, 19), "L20": M(16, 19), "L11": M(0, 16)}, "W: a = [user] | b | b from p, optionally op (b | b from p) - parallel lines between the same two nodes; b = [user] | a (38 models)"),
+    "WI": ({"R": 3, "L10": M(16), "L20": M(17), "L11": M(2, 3, 22), "L12": M(0, 1, 2)},
+           "WI: a = b | b or c | b and c | b but not c with b in {[user:*], [employee:*], [user:*, employee:*]}, c in {[user], [user, employee], [user:*]} (an intersection/exclusion that removes a type whose public restriction stays reachable; 36 models)"),
+    "WU": ({"R": 3, "L10": M(0, 11, 12), "L20": M(16, 17), "OP0": 1, "L11": M(0, 11, 12), "L21": M(16, 17), "OP1": 1, "L12": M(0, 11, 12), "L22": M(16, 17), "OP2": 1},
+           "WU: three relations, each [user] | [doc#y, user:*] | [employee:*, doc#y], optionally `or y` / `or z` (tuple cycles through several union nodes with public types found above them; 729 models)"),
+    "S1": ({"R": 2, "SINGLE0": 1, "L10": M(0, 1, 4, 16, 19), "L20": M(16, 19), "L11": M(0, 4, 16)},
+           "S1: a = leaf | leaf op second | union(leaf) | intersection(leaf) | union(union(leaf)) | union(leaf) op second (operators with ONE operand, JSON-only), b = [user] | [doc#a] | a"),
     "L": ({"R": 3, "L10": M(0, 4, 5, 9, 10, 16), "L11": M(0, 4, 5, 9, 10, 16, 17), "L12": M(0, 4, 5, 9, 10, 16, 17), "L22": M(16, 17), "OP2": 3},
           "L: three relations with multi-userset restrictions (interlocking tuple cycles)"),
 }
@@ -833,7 +846,10 @@ GRAPH_ASSUME = ["models of the stated family only (type doc with relations a,b[,
 
 
 def graph_check(pid, mode, tier, quick, thorough, extra_jobs=(), reach=None):
-    spec = quick if tier == "quick" else thorough
+    spec = quick
+    if tier != "quick":
+        # thorough = its own list plus every quick job whose family it does not already have (a superset of the quick tier)
+        spec = list(thorough) + [q for q in quick if q[0] not in [t[0] for t in thorough]]
     jobs = list(extra_jobs)
     bounds = {}
     for name, pol, polname in spec:
@@ -858,27 +874,27 @@ THOROUGH_GRAPH = [("J4", *RR), ("J5", *RR), ("J6", *RR), ("Q", *RR), ("N", *RA),
 
 
 def c04(tier):
-    graph_check("C04", 4, tier, [("B", *FI), ("J", *FI), ("J4", *FI), ("K", *FI), ("Q", *FI), ("Q2", *FI), ("N", *RA), ("H", *RR), ("L", *RR), ("LP", *RR), ("C", *RA)], THOROUGH_GRAPH, extra_jobs=kernels())
+    graph_check("C04", 4, tier, [("B", *FI), ("J", *FI), ("J4", *FI), ("K", *FI), ("Q", *FI), ("Q2", *FI), ("N", *RA), ("H", *RR), ("L", *RR), ("LP", *RR), ("C", *RA), ("S1", *FI)], THOROUGH_GRAPH, extra_jobs=kernels())
 
 
 def c05(tier):
-    graph_check("C05", 5, tier, [("A", *AL), ("B", *FI), ("J", *FI), ("J4", *FI), ("J5", *FI), ("J6", *FI), ("Q", *FI), ("G", *RR), ("L", *RR), ("H", *RR)], THOROUGH_GRAPH, reach=["return"])
+    graph_check("C05", 5, tier, [("A", *AL), ("B", *FI), ("J", *FI), ("J4", *FI), ("J5", *FI), ("J6", *FI), ("Q", *FI), ("G", *RR), ("L", *RR), ("H", *RR), ("S1", *RR), ("LP", *RR)], THOROUGH_GRAPH, reach=["return"])
 
 
 def c06(tier):
     twin = lambda name: dict(T("graph", "VerifC06_OperandOrder", dict(FAMS[name][0]), **FIRST), _reach=["accepted"])  # noqa
     graph_check("C06", 6, tier, [("A", *AL), ("C", *RA), ("H", *RR), ("L", *RR), ("K", *RR), ("LP", *RR), ("HP", *RR)], THOROUGH_GRAPH, reach=["return"],
-                extra_jobs=[twin("B"), twin("K"), twin("N")] + ([twin("D")] if tier == "thorough" else []) +
+                extra_jobs=[twin("B"), twin("K"), twin("N"), dict(T("graph", "VerifC13_GraphHistory"), _reach=["built"])] + ([twin("D")] if tier == "thorough" else []) +
                 [dict(T("graph", "VerifC06_Names", {}, sched="rot", sched_funcs=["AssignWeights", "WeightedAuthorizationModelGraphBuilder"], sched_other="first", prune=True), _reach=["accepted", "rejected"])])
 
 
 def c10(tier):
-    graph_check("C10", 10, tier, [("B", *FI), ("P", *FI), ("J", *FI), ("J4", *FI), ("J5", *FI), ("J6", *FI), ("K", *FI), ("H", *FI), ("G", *FI), ("Q", *FI), ("Q2", *FI)], [("D", *FI), ("E", *FI), ("P", *RA), ("L", *FI), ("G", *FI), ("H", *FI), ("J", *FI), ("K", *FI)])
+    graph_check("C10", 10, tier, [("B", *FI), ("P", *FI), ("J", *FI), ("J4", *FI), ("J5", *FI), ("J6", *FI), ("K", *FI), ("H", *FI), ("G", *FI), ("Q", *FI), ("Q2", *FI), ("S1", *FI), ("W", *FI)], [("D", *FI), ("E", *FI), ("P", *RA), ("L", *FI), ("G", *FI), ("H", *FI), ("J", *FI), ("K", *FI)])
 
 
 def c11(tier):
     pub = dict(T("graph", "VerifC11_PublicTypes", {"MODE": 11}, **ROOT_ROT), _reach=["accepted"])
-    graph_check("C11", 11, tier, [("B", *FI), ("C", *RA), ("H", *RR), ("L", *RR)], THOROUGH_GRAPH, extra_jobs=[pub])
+    graph_check("C11", 11, tier, [("B", *FI), ("C", *RA), ("H", *RR), ("L", *RR), ("WI", *RR), ("WU", *RR)], THOROUGH_GRAPH + [("WI", *RA), ("WU", *RA)], extra_jobs=[pub])
 
 
 def c19(tier):
@@ -1007,6 +1023,10 @@ def c01(tier):
             LJ("VerifC01_RoundTrip", tier, CHAIN=W(tier, 9, 16), **SHAPES),
             LJ("VerifC01_RoundTrip", tier, NODES=1, DEPTH=0, SIBLINGS=0, CONDS=1, FIXLAYOUT=1, PARAMS=2, PTYPES=1),
             LJ("VerifC01_RoundTrip", tier, NODES=1, DEPTH=0, SIBLINGS=0, CONDS=1, FIXLAYOUT=1, PARAMS=1, EXPRS=1),
+            # a document without types (header and conditions only)
+            LJ("VerifC01_RoundTrip", tier, NODES=1, DEPTH=0, SIBLINGS=0, CONDS=2, FIXLAYOUT=1, NOTYPES=1, N=1),
+            # relation names that differ in letter case only, every iteration order of the printer's maps
+            dict(LJ("VerifC01_RoundTrip", tier, NODES=1, DEPTH=0, SIBLINGS=1, CONDS=0, FIXLAYOUT=1, CASE=1, N=W(tier, 1, 2)), sched="all", prune=True),
             LJS("VerifC01_JSONAPI", tier, NODES=W(tier, 3, 4), DEPTH=1, **SHAPES), LJS("VerifC01_JSONAPI", tier, **NAMES),
             LJS("VerifC01_JSONAPI", tier, NODES=1, DEPTH=0, SIBLINGS=0, CONDS=1, FIXLAYOUT=1, PARAMS=2, PTYPES=1)]
     out = engine_a_check("C01", tier, jobs, {"VerifC01_RoundTrip": ["rendered", "stable"], "VerifC01_JSONAPI": ["rendered", "stable"]},
@@ -1045,8 +1065,8 @@ MERGE_ASSUME = ["TransformModularDSLToProto (lexer+parser+listener) is replaced 
 def merge_jobs(tier, harness, pols):
     jobs = []
     n = W(tier, 2, 2)
-    for scen, extra in ((1, {"SEPS": 1}), (2, {}), (3, {"N": 1, "NR": 2}), (4, {}), (5, {"NR": 2}), (0, {"F": 2, "DECLS": W(tier, 3, 4), "RELS": W(tier, 1, 2), "CONDS": 1, "FAULTS": 0}),
-                        (0, {"F": 2, "DECLS": 2, "RELS": 1, "CONDS": 1, "FAULTS": 1, "N": 1})):
+    for scen, extra in ((1, {"SEPS": 1, "CRLF": 1}), (2, {"SAMEMOD": 1}), (3, {"N": 1, "NR": 2}), (4, {}), (5, {"NR": 2}), (0, {"F": 2, "DECLS": W(tier, 3, 4), "RELS": W(tier, 1, 2), "CONDS": 1, "FAULTS": 0}),
+                        (0, {"F": 2, "DECLS": 2, "RELS": 1, "CONDS": 1, "FAULTS": 1, "N": 1, "CRLF": 1})):
         params = dict({"SCEN": scen, "N": n, "NR": 1}, **extra)
         jobs.append(T("transformer", harness, params, **pols))
     return jobs
@@ -1110,7 +1130,7 @@ def c17(tier):
     def J(h, famname, pol=C17_SCHED, **extra):
         return T("graph", h, dict(FAMS[famname][0], **extra), **pol)
     q = tier == "quick"
-    jobs = [J("VerifC17_Faithful", "A"), J("VerifC17_Faithful", "B"), J("VerifC17_Faithful", "H"), J("VerifC17_Faithful", "J"), J("VerifC17_Faithful", "J5"), J("VerifC17_Faithful", "J6"), J("VerifC17_Faithful", "J4"), J("VerifC17_Faithful", "K"),
+    jobs = [J("VerifC17_Faithful", "A"), J("VerifC17_Faithful", "B"), J("VerifC17_Faithful", "H"), J("VerifC17_Faithful", "J"), J("VerifC17_Faithful", "J5"), J("VerifC17_Faithful", "J6"), J("VerifC17_Faithful", "J4"), J("VerifC17_Faithful", "K"), J("VerifC17_Faithful", "S1"),
             J("VerifC17_Reversed", "A", PAIRS=4, WINDOWS=3), J("VerifC17_Reversed", "W", PAIRS=4, WINDOWS=3), J("VerifC17_Reversed", "N", PAIRS=4, WINDOWS=3),
             J("VerifC17_Stable", "W", C17_WIDE),
             J("VerifC17_Stable", "A"), J("VerifC17_Stable", "B"), J("VerifC17_Stable", "N"), T("graph", "VerifC17_StableNames", {}, **C17_SCHED),
